@@ -268,6 +268,7 @@ func Run(seed int64, n int, outDir string) error {
 		{"uatom", "uosmo", "0.01", "1.001", "0"},
 		{"uusdc", "uatom", "0.05", "1.1", "0.25"},
 		{"uosmo", "urise", "0", "1.01", "0"}, // no swap fee: only incentives accrue
+		{"urise", "uatom", "0.003", "1.0001", "0"}, // deep: positions of 18-decimals-token size
 	} {
 		if _, err := w.CreatePool(ps[0], ps[1], ps[2], ps[3], ps[4]); err != nil {
 			return err
